@@ -277,9 +277,189 @@ func main() {
 			}
 		}
 	}
+	var states int64
+	// ---------------- histories around the constructors: the caller's slices ----------------
+	// A composed shape is determined by its operands at construction time: changing the slice that was passed
+	// to the constructor afterwards must not change the shape, and the constructor must not rearrange the
+	// caller's slice (added after seed C02-7).
+	{
+		sph := func(x, y, z float64) sdf.SDF3 {
+			s, _ := sdf.Sphere3D(0.5)
+			return sdf.Transform3D(s, sdf.Translate3d(v3.Vec{X: x, Y: y, Z: z}))
+		}
+		cir := func(x, y float64) sdf.SDF2 {
+			s, _ := sdf.Circle2D(0.5)
+			return sdf.Transform2D(s, sdf.Translate2d(v2.Vec{X: x, Y: y}))
+		}
+		var p3 []v3.Vec
+		var p2 []v2.Vec
+		for i := -4; i <= 4; i++ {
+			for j := -4; j <= 4; j++ {
+				p2 = append(p2, v2.Vec{X: float64(i) * 0.7, Y: float64(j) * 0.6})
+				for k := -2; k <= 2; k++ {
+					p3 = append(p3, v3.Vec{X: float64(i) * 0.7, Y: float64(j) * 0.6, Z: float64(k) * 0.55})
+				}
+			}
+		}
+		ev3 := func(s sdf.SDF3) []float64 {
+			o := make([]float64, len(p3))
+			for i, p := range p3 {
+				o[i] = s.Evaluate(p)
+			}
+			return o
+		}
+		ev2 := func(s sdf.SDF2) []float64 {
+			o := make([]float64, len(p2))
+			for i, p := range p2 {
+				o[i] = s.Evaluate(p)
+			}
+			return o
+		}
+		same := func(a, b []float64) bool {
+			for i := range a {
+				if a[i] != b[i] && !(math.IsNaN(a[i]) && math.IsNaN(b[i])) {
+					return false
+				}
+			}
+			return true
+		}
+		type hcase struct {
+			name string
+			run  func() (before, after []float64, rearranged bool)
+		}
+		cases := []hcase{
+			{"Union3D", func() ([]float64, []float64, bool) {
+				parts := []sdf.SDF3{sph(0, 0, 0), nil, sph(2, 1, 0), sph(-2, -1, 0.5), nil}
+				keep := append([]sdf.SDF3{}, parts...)
+				u := sdf.Union3D(parts...)
+				re := false
+				for i := range parts {
+					if parts[i] != keep[i] {
+						re = true
+					}
+				}
+				b := ev3(u)
+				for i := range parts {
+					parts[i] = sph(0.3, 2, -1)
+				}
+				return b, ev3(u), re
+			}},
+			{"Union2D", func() ([]float64, []float64, bool) {
+				parts := []sdf.SDF2{cir(0, 0), nil, cir(2, 1), cir(-2, -1), nil}
+				keep := append([]sdf.SDF2{}, parts...)
+				u := sdf.Union2D(parts...)
+				re := false
+				for i := range parts {
+					if parts[i] != keep[i] {
+						re = true
+					}
+				}
+				b := ev2(u)
+				for i := range parts {
+					parts[i] = cir(0.3, 2)
+				}
+				return b, ev2(u), re
+			}},
+			{"Multi3D", func() ([]float64, []float64, bool) {
+				pos := v3.VecSet{{X: 0}, {X: 2, Y: 1}, {X: -2, Y: -1, Z: 0.5}}
+				u := sdf.Multi3D(sph(0, 0, 0), pos)
+				b := ev3(u)
+				for i := range pos {
+					pos[i] = v3.Vec{X: 0.3, Y: 2, Z: -1}
+				}
+				return b, ev3(u), false
+			}},
+			{"Multi2D", func() ([]float64, []float64, bool) {
+				pos := v2.VecSet{{X: 0}, {X: 2, Y: 1}, {X: -2, Y: -1}}
+				u := sdf.Multi2D(cir(0, 0), pos)
+				b := ev2(u)
+				for i := range pos {
+					pos[i] = v2.Vec{X: 0.3, Y: 2}
+				}
+				return b, ev2(u), false
+			}},
+			{"Orient3D", func() ([]float64, []float64, bool) {
+				dirs := v3.VecSet{{X: 1}, {Y: 1}, {X: -1, Y: -1, Z: 1}}
+				u := sdf.Orient3D(sph(0, 0, 2), v3.Vec{Z: 1}, dirs)
+				b := ev3(u)
+				for i := range dirs {
+					dirs[i] = v3.Vec{Z: -1}
+				}
+				return b, ev3(u), false
+			}},
+			{"Polygon2D", func() ([]float64, []float64, bool) {
+				vs := []v2.Vec{{X: -1, Y: -1}, {X: 2, Y: -1}, {X: 2, Y: 0}, {X: 0, Y: 0}, {X: 0, Y: 2}, {X: -1, Y: 2}}
+				keep := append([]v2.Vec{}, vs...)
+				u, err := sdf.Polygon2D(vs)
+				if err != nil {
+					return nil, nil, false
+				}
+				re := false
+				for i := range vs {
+					if vs[i] != keep[i] {
+						re = true
+					}
+				}
+				b := ev2(u)
+				for i := range vs {
+					vs[i] = v2.Vec{X: float64(i), Y: float64(i * i)}
+				}
+				return b, ev2(u), re
+			}},
+			{"Mesh2D", func() ([]float64, []float64, bool) {
+				ls := sdf.VertexToLine([]v2.Vec{{X: -1, Y: -1}, {X: 2, Y: -1}, {X: 2, Y: 0}, {X: 0, Y: 0}, {X: 0, Y: 2}, {X: -1, Y: 2}}, true)
+				u, err := sdf.Mesh2D(ls)
+				if err != nil {
+					return nil, nil, false
+				}
+				b := ev2(u)
+				for i := range ls {
+					ls[i] = &sdf.Line2{{X: 5, Y: 5}, {X: 6, Y: 6 + float64(i)}}
+				}
+				return b, ev2(u), false
+			}},
+		}
+		for _, h := range cases {
+			b, a, re := h.run()
+			states++
+			if b == nil {
+				continue
+			}
+			if re {
+				c.Violation(h.name+"|rearranges-the-callers-slice", h.name+": the slice passed to the constructor was modified by it", map[string]any{"constructor": h.name})
+			}
+			if !same(b, a) {
+				c.Violation(h.name+"|shape-changes-when-the-callers-slice-is-modified-afterwards", h.name+": Evaluate changed after the slice that had been passed to the constructor was overwritten", map[string]any{"constructor": h.name})
+			}
+		}
+		// RotateToVector for parallel, anti-parallel and general direction pairs of any length: a sphere on the
+		// base direction must end up on the target direction (independent of which half turn is chosen for
+		// opposite vectors)
+		sp, _ := sdf.Sphere3D(0.5)
+		for _, la := range []float64{1, 2, 25.4, 0.1} {
+			for _, b := range []v3.Vec{{Z: 1}, {Z: -1}, {Z: -2}, {Z: 5}, {Z: -25.4}, {X: 1}, {X: -3}, {Y: 2}, {X: 1, Y: 2, Z: 2}, {X: -1, Y: -1, Z: -1}, {X: 0.5, Z: -0.5}} {
+				for ax := 0; ax < 3; ax++ {
+					base := [3]v3.Vec{{Z: la}, {X: la}, {Y: -la}}[ax]
+					bu := base.MulScalar(1 / base.Length())
+					m := sdf.RotateToVector(base, b)
+					s := sdf.Transform3D(sdf.Transform3D(sp, sdf.Translate3d(bu.MulScalar(3))), m)
+					tu := b.MulScalar(3 / b.Length())
+					states++
+					for _, q := range []v3.Vec{tu, tu.MulScalar(0.5), {X: 0.3, Y: -0.2, Z: 0.1}, tu.Add(v3.Vec{X: 0.25, Y: 0.25})} {
+						want := q.Sub(tu).Length() - 0.5
+						if got := s.Evaluate(q); !(math.Abs(got-want) <= 1e-9) {
+							c.Violation("denotation|Transform3D[RotateToVector]|value|"+rtvClass(base, b), fmt.Sprintf("RotateToVector(%v, %v) applied to a sphere at 3 along the base: value %g at %v, a sphere at 3 along the target gives %g", base, b, got, q, want), map[string]any{"base": base, "target": b, "point": q})
+							break
+						}
+					}
+				}
+			}
+		}
+	}
+
 	// ---------------- cache wrapper: all query histories (explicit-state BFS) ----------------
 	menu := []v2.Vec{{X: 0, Y: 0}, {X: math.Copysign(0, -1), Y: 0}, {X: 0.75, Y: 0.25}, {X: 0.75, Y: 0.25000000000000006}, {X: -3, Y: 7}}
-	var hist, states int64
+	var hist int64
 	for _, mk := range []func() sdf.SDF2{
 		func() sdf.SDF2 { s, _ := sdf.Circle2D(1); return s },
 		func() sdf.SDF2 { return sdf.Box2D(v2.Vec{X: 2, Y: 1}, 0.25) },
@@ -404,6 +584,23 @@ func splitOperands(name string) (string, string) {
 		}
 	}
 	return "", ""
+}
+
+// rtvClass names the relative position of the two directions.
+func rtvClass(a, b v3.Vec) string {
+	cr := a.Cross(b).Length()
+	d := a.Dot(b)
+	l := "unit-lengths"
+	if math.Abs(a.Length()-1) > 1e-12 || math.Abs(b.Length()-1) > 1e-12 {
+		l = "non-unit-lengths"
+	}
+	switch {
+	case cr <= 1e-12*a.Length()*b.Length() && d > 0:
+		return "parallel," + l
+	case cr <= 1e-12*a.Length()*b.Length():
+		return "anti-parallel," + l
+	}
+	return "general," + l
 }
 
 var (
